@@ -4,6 +4,8 @@ import (
 	"bytes"
 	"encoding/json"
 	"fmt"
+	xast "github.com/cedar-policy/cedar-go/x/exp/ast"
+	"math/big"
 	"sort"
 	"strings"
 
@@ -284,4 +286,151 @@ func runSpellings(payload []*Sx) *Sx {
 		out.List = append(out.List, A(p))
 	}
 	return out
+}
+
+func init() {
+	kinds["jsonenc"] = runJSONEnc
+	kinds["jsondec"] = runJSONDec
+}
+
+// jsonTreeSx parses JSON text into the tree the Coq model works on (Base/Json.v): members in document order, duplicates kept.
+func jsonTreeSx(b []byte) (*Sx, error) {
+	dec := json.NewDecoder(bytes.NewReader(b))
+	dec.UseNumber()
+	var value func() (*Sx, error)
+	value = func() (*Sx, error) {
+		tok, err := dec.Token()
+		if err != nil {
+			return nil, err
+		}
+		switch t := tok.(type) {
+		case json.Delim:
+			switch t {
+			case '[':
+				out := L(A("arr"))
+				for dec.More() {
+					v, err := value()
+					if err != nil {
+						return nil, err
+					}
+					out.List = append(out.List, v)
+				}
+				_, err := dec.Token()
+				return out, err
+			case '{':
+				out := L(A("obj"))
+				for dec.More() {
+					k, err := dec.Token()
+					if err != nil {
+						return nil, err
+					}
+					v, err := value()
+					if err != nil {
+						return nil, err
+					}
+					out.List = append(out.List, L(AS(k.(string)), v))
+				}
+				_, err := dec.Token()
+				return out, err
+			}
+			return nil, fmt.Errorf("unexpected delimiter")
+		case string:
+			return L(A("str"), AS(t)), nil
+		case json.Number:
+			if _, ok := new(big.Int).SetString(t.String(), 10); ok && !strings.HasPrefix(t.String(), "-0") {
+				return L(A("num"), A(t.String())), nil
+			}
+			return L(A("numother")), nil
+		case bool:
+			if t {
+				return L(A("bool"), A("1")), nil
+			}
+			return L(A("bool"), A("0")), nil
+		case nil:
+			return L(A("null")), nil
+		}
+		return nil, fmt.Errorf("unexpected token")
+	}
+	return value()
+}
+
+func jsonTextOfSx(t *Sx) string {
+	switch t.Head() {
+	case "arr":
+		parts := []string{}
+		for _, x := range t.List[1:] {
+			parts = append(parts, jsonTextOfSx(x))
+		}
+		return "[" + strings.Join(parts, ",") + "]"
+	case "obj":
+		parts := []string{}
+		for _, kv := range t.List[1:] {
+			parts = append(parts, jsonOf(kv.List[0].Str())+":"+jsonTextOfSx(kv.List[1]))
+		}
+		return "{" + strings.Join(parts, ",") + "}"
+	case "str":
+		return jsonOf(t.List[1].Str())
+	case "num":
+		return t.List[1].Atom
+	case "numother":
+		return "1.5e0"
+	case "bool":
+		if t.List[1].Atom == "1" {
+			return "true"
+		}
+		return "false"
+	}
+	return "null"
+}
+
+// jsonenc: <value> -> (tree <json tree>)
+func runJSONEnc(payload []*Sx) *Sx {
+	v := valueFromSx(payload[0])
+	b, err := json.Marshal(v)
+	if err != nil {
+		return L(A("marshal-error"))
+	}
+	t, err := jsonTreeSx(b)
+	if err != nil {
+		return L(A("output-is-not-json"))
+	}
+	return L(A("tree"), t)
+}
+
+// jsondec: <json tree> -> (ok <value>) | (err)
+func runJSONDec(payload []*Sx) *Sx {
+	var v types.Value
+	if err := types.UnmarshalJSON([]byte(jsonTextOfSx(payload[0])), &v); err != nil {
+		return L(A("err"))
+	}
+	return L(A("ok"), valueToSx(v))
+}
+
+func init() {
+	kinds["pjsonenc"] = runPJSONEnc
+	kinds["pjsondec"] = runPJSONDec
+}
+
+// pjsonenc: <policy> -> (tree <json tree of Policy.MarshalJSON>)
+func runPJSONEnc(payload []*Sx) *Sx {
+	_, a := policyFromSx(payload[0])
+	p := cedar.NewPolicyFromAST((*cedarAST)(a))
+	b, err := p.MarshalJSON()
+	if err != nil {
+		return L(A("marshal-error"))
+	}
+	t, err := jsonTreeSx(b)
+	if err != nil {
+		return L(A("output-is-not-json"))
+	}
+	return L(A("tree"), t)
+}
+
+// pjsondec: <json tree> -> (ok <policy>) | (err)
+func runPJSONDec(payload []*Sx) *Sx {
+	var p cedar.Policy
+	if err := p.UnmarshalJSON([]byte(jsonTextOfSx(payload[0]))); err != nil {
+		return L(A("err"))
+	}
+	return L(A("ok"), policyToSx("p", (*xast.Policy)(p.AST())))
 }
